@@ -9,7 +9,7 @@ open Util
      chk <clause> ...   the real window's own output violates C17 on this input (extracted checker)
      chk <clause>_casefold_binding   same, the model (which follows the observed binding) produces the same output,
                         and the only unfaithful bindings are calls bound to a SELECT aggregate of the same function
-                        over a column whose name differs in letter case only (finding F50)
+                        over a column whose name differs in letter case only (finding F55)
      diff ...           extracted model and real window disagree
      ok / ok nt         equal; nt = at least one result and at least one row without a result *)
 
